@@ -59,12 +59,12 @@ CHECKS = {
     },
     "C05": {
         "text": "Coq: an ownership ledger over the proven allocator (C06) keeps, along every sequence of acquisitions and give-backs, the exact partition free xor owned-by-exactly-one-extent of the data area; give-backs of owned extents are always accepted (no leak); with nothing owned the manager is exactly the fresh one. The link from the write path to that ledger is proved over Model/FailPath.v: through allocation, refused allocation, failed batches, scrubs, quarantine and publication, for every choice of failing device calls, every block is free exactly when no reservation (clean, dirty or quarantined) and no published record covers it, none is covered twice, and the disk-usage counter equals the covered blocks. Tie: the T-eq of that model against the real write path under planned failures (allocator statistics, usage counter and sectors after every flush); at every quiescent point of real workloads an oracle checks disjointness, complement, usage/record counters and persisted counters on the live store, the byte-level recovery model must rebuild the same state (incl. free-space statistics) from the file, and an emptied device must be a single free run that accepts a fresh device's fill.",
-        "note": TRUST + " The write-path model covers one shard's inserts; retirements (deletes, replacements, expiry) reach the ledger through the quiescent-point oracle and the recovery correspondence, not through a theorem.",
+        "note": TRUST + " The write-path model covers one shard's inserts and the deletes of published records (their extents stay owned in the retirement queue until given back: ownership_partition_with_deletes); replacements and expiry reach the ledger through the quiescent-point oracle and the recovery correspondence, not through a theorem.",
         "design": "DESIGN.md section 5 C05",
     },
     "C09": {
         "category": "proof",
-        "text": "PARTIAL proof. Proved in Coq (abstract device): at every protocol state -- hence at the state where a device call fails -- every crash image and the device as it stands recover to the contents before or after the transaction in flight and never to anything older than the last acknowledgement; a failed write-before or fsync changes no crash image; whatever part of a journaled batch reached the device is contained in the journaled extents (so it can be scrubbed, and is wiped by replay). Also proved: the scrub of a failed batch whose intent is durable (journal ACTIVE again in the other slot, markers, clear) is restartable at every point and recovers, from the failure to its end, exactly the cells the batch found. Also proved, over Model/FailPath.v (the failure-handling code itself: process_write_batch, failed_batch_outcome, cleanup_failed_allocations, release_scrubbed_allocations, release_allocations, quarantine, poison, on top of the real allocator model), for every choice of failing device calls and every sequence of inserts and flushes: a flush answers Ok only when the device is not poisoned and every queued entry has been published; no entry is ever lost (all published or all still queued, in order); a poisoned device never answers Ok again; a quarantined reservation stays with its entry; extents that may hold bytes of a failed batch are never free unless scrubbed. Tie: T-eq of that model against the real write path with the coordinator paused (hook H11), calls failed by plan, comparing result class, allocator statistics, usage counter, published sectors and the number of device calls after every flush. NOT proved: error propagation across several workers/shards, the io_uring completion path (its IndeterminateWrite outcomes), deletes/retirements inside a failing batch, healing. Those are decided by execution: fault injection at every device call (before/after), pairs, persistent and healing failures on the real store with the Coq monitor accepting each faulted history and an oracle for acknowledgement windows, reads during failure, no hang/death, and flush success after healing.",
+        "text": "PARTIAL proof. Proved in Coq (abstract device): at every protocol state -- hence at the state where a device call fails -- every crash image and the device as it stands recover to the contents before or after the transaction in flight and never to anything older than the last acknowledgement; a failed write-before or fsync changes no crash image; whatever part of a journaled batch reached the device is contained in the journaled extents (so it can be scrubbed, and is wiped by replay). Also proved: the scrub of a failed batch whose intent is durable (journal ACTIVE again in the other slot, markers, clear) is restartable at every point and recovers, from the failure to its end, exactly the cells the batch found. Also proved, over Model/FailPath.v (the failure-handling code itself: process_write_batch, failed_batch_outcome, cleanup_failed_allocations, release_scrubbed_allocations, release_allocations, quarantine, poison, on top of the real allocator model), for every choice of failing device calls and every sequence of inserts and flushes: a flush answers Ok only when the device is not poisoned and every queued entry has been published; no entry is ever lost (all published or all still queued, in order); a poisoned device never answers Ok again; a quarantined reservation stays with its entry; extents that may hold bytes of a failed batch are never free unless scrubbed. Tie: T-eq of that model against the real write path with the coordinator paused (hook H11), calls failed by plan, comparing result class, allocator statistics, usage counter, published sectors and the number of device calls after every flush. The model also carries deletes of published records and their retirement (journal, markers, clear, one release per group of adjacent extents; a failed retirement poisons the device) and the reclaim-and-retry of a pass the allocator refused, with the same theorems (flush_with_deletes_is_honest). NOT proved: error propagation across several workers/shards, the io_uring completion path (its IndeterminateWrite outcomes), retirements gated by readers or undurable successors, healing. Those are decided by execution: fault injection at every device call (before/after), pairs, persistent and healing failures on the real store with the Coq monitor accepting each faulted history and an oracle for acknowledgement windows, reads during failure, no hang/death, and flush success after healing.",
         "note": TRUST + " Fault model A4 (fail-stop; failed fsync = writes stay un-synced). io_uring-path faults are not injected.",
         "design": "DESIGN.md section 5 C09",
     },
